@@ -7,6 +7,7 @@ From VQ Require Import Model.Einops Model.Layout Glue.EinopsGlueBase Glue.Einops
 From VQ Require Import Model.Machine Model.History Proofs.HistoryProofs.
 From VQ Require Import Glue.Pin_fp_C01.
 From VQ Require Import Model.Memo Proofs.MemoProofs Glue.Pin_p_simvq_codebook.
+From VQ Require Import Model.Requant Proofs.RequantProofs Glue.RequantGlue.
 Import ListNotations.
 Open Scope R_scope.
 
@@ -298,3 +299,33 @@ Theorem C01_tie_simvq_codebook_derivation_pinned :
   p_simvq_codebook.p_simvq_codebook = pinned_p_simvq_codebook.
 Proof. exact (@Pin_p_simvq_codebook.pin_p_simvq_codebook). Qed.
 Print Assumptions C01_tie_simvq_codebook_derivation_pinned.
+
+Theorem C01_inplace_step_requantizes_everything :
+  forall (step : list Rv -> list Rv -> list nat -> list Rv) (cb xs : list Rv),
+       forward_from_bindings step o_vq_codebook_calls.o_vq_codebook_calls cb xs =
+       Some (inplace_forward step cb xs).
+Proof. exact (@RequantGlue.source_requantizes_everything). Qed.
+Print Assumptions C01_inplace_step_requantizes_everything.
+
+Theorem C01_inplace_step_consistent :
+  forall (step : list Rv -> list Rv -> list nat -> list Rv) (cb xs : list Rv) (d : nat) (r : result),
+       forward_from_bindings step o_vq_codebook_calls.o_vq_codebook_calls cb xs = Some r ->
+       r_cb r <> [] ->
+       shaped d (r_cb r) -> Forall (fun x : Rv => Datatypes.length x = d) xs -> consistent xs r nearest_rel.
+Proof. exact (@RequantGlue.source_forward_consistent). Qed.
+Print Assumptions C01_inplace_step_consistent.
+
+Theorem C01_stale_indices_refuted :
+  exists (step : list Rv -> list Rv -> list nat -> list Rv) (cb xs : list Rv),
+         shaped 1 (r_cb (stale_forward step cb xs)) /\
+         Forall (fun x : Rv => Datatypes.length x = 1%nat) xs /\
+         ~ consistent xs (stale_forward step cb xs) nearest_rel.
+Proof. exact (@RequantProofs.stale_forward_refuted). Qed.
+Print Assumptions C01_stale_indices_refuted.
+
+Theorem C01_dropped_index_binding_is_stale :
+  forall (step : list Rv -> list Rv -> list nat -> list Rv) (cb xs : list Rv),
+       forward_from_bindings step ["quantize, embed_ind, distances"; "quantize, _, distances"] cb xs =
+       Some (stale_forward step cb xs).
+Proof. exact (@RequantProofs.bindings_index_dropped). Qed.
+Print Assumptions C01_dropped_index_binding_is_stale.
